@@ -232,3 +232,151 @@ def buckets(case, ans):
     if case.get("opts"):
         out += T.opt_buckets(case)
     return out
+
+
+# ================================================================== two live instances (stream `pair`, see props/pairlib.py)
+# Appended as wrappers around the functions above, so that the single-instance streams and their seeds stay as they were.
+# A pair case: two configs from one template (banner / macro bearing ones included), BOTH parsed first; a history over the
+# extended alphabet on A (probes of all guarded searches included) with a look at B before every operation and after the
+# last (texts, line numbers, links, family views, two recursive searches: B must not change), then a history on B with
+# the same watch on A.  Each history is run by edit7.run_history itself, judged by the oracle above on its own case (tree
+# after every commit = fresh parse, searches refuse exactly while an insert is pending ON THAT INSTANCE) and compared with
+# the model's answer for that history alone.
+from props import pairlib as PL  # noqa: E402
+
+
+def pair_ops(rng, auto):
+    r = rng.random()
+    if r < 0.25:
+        ops = E.rand_ops(rng, rng.choice([1, 2, 3, 5]), auto)
+    elif r < 0.45 and not auto:
+        ops = X.stale_probe_history(rng) + X.rand_ops_x(rng, rng.choice([0, 1]), auto)
+    else:
+        ops = X.rand_ops_x(rng, rng.choice([1, 2, 3, 5]), auto)
+    return ops + [["commit"], X.rand_probe(rng), ["commit"]]
+
+
+def mk_pair(a, b, ops_a, ops_b, muts=(), origin="pair"):
+    """a, b: dict(syntax, ignore_blank, auto_commit, lines[, opts])"""
+    hist = []
+    for c, ops in ((a, ops_a), (b, ops_b)):
+        h = E.mk_case(c["syntax"], c["ignore_blank"], c["auto_commit"], c["lines"], ops, origin)
+        if c.get("opts"):
+            h["opts"] = dict(c["opts"])
+        hist.append(h)
+    cfgs = [dict(c, delims=None) for c in (a, b)]
+    return {"pair": True, "cfgs": cfgs, "hist": hist, "mutations": list(muts), "_origin": origin, "req": None,
+            "plan": [0, 1], "ops": ops_a, "lines": a["lines"], "syntax": a["syntax"], "auto_commit": a["auto_commit"],
+            "ignore_blank": a["ignore_blank"], "delims": None}
+
+
+def rand_pair(rng):
+    syntax = rng.choice(T.SYNTAXES)
+    ign = rng.random() < 0.35
+    r = rng.random()
+    lines = rng.choice(E.SEED_CONFIGS) if r < 0.4 else T.rand_config(rng, 8, r < 0.75, None)
+    opts = [{}, {}, {}, {"aiw": 2}, {"aiw": 3}, {"debug": 1}]
+    a = {"syntax": syntax, "ignore_blank": ign, "auto_commit": rng.random() < 0.5, "lines": list(lines), "opts": dict(rng.choice(opts))}
+    if rng.random() < 0.15 or not lines:
+        blines, muts = list(lines), ["identical"]
+    else:
+        blines, muts = PL.variant(rng, lines, ["a", "b", "x", "! c", "^", "@", " shutdown"])
+    b = {"syntax": syntax if rng.random() < 0.6 else rng.choice(T.SYNTAXES), "ignore_blank": ign if rng.random() < 0.8 else not ign,
+         "auto_commit": a["auto_commit"] if rng.random() < 0.6 else not a["auto_commit"], "lines": blines, "opts": dict(rng.choice(opts))}
+    ops_a = pair_ops(rng, a["auto_commit"])
+    ops_b = [list(o) for o in ops_a] if rng.random() < 0.4 else pair_ops(rng, b["auto_commit"])
+    return mk_pair(a, b, ops_a, ops_b, muts)
+
+
+def pair_cases(rng, tier):
+    for _ in range({"quick": 450, "thorough": 15000, "search": 300}[tier]):
+        yield rand_pair(rng)
+
+
+def impl_pair(case):
+    return PL.run_history_pair(T, case["cfgs"], case["hist"], X.run_history, T.parse_impl_opts)
+
+
+def pair_neighbours(case, rng):
+    a, b = case["cfgs"]
+    for _ in range(100):
+        lines, muts = PL.variant(rng, a["lines"], ["a", "b", "x", "! c"])
+        ops_a = list(case["hist"][0]["ops"])
+        if len(ops_a) > 4 and rng.random() < 0.5:
+            del ops_a[rng.randrange(len(ops_a) - 3)]
+        yield mk_pair(a, dict(b, lines=lines), ops_a, list(case["hist"][1]["ops"]), muts)
+
+
+def _pair_describe(case):
+    keys = ("syntax", "ignore_blank", "auto_commit", "lines", "ops", "opts")
+    return {"two_live_instances": "both configs are parsed first; history A runs with a look at B before every operation and after the last, "
+                                  "then history B with the same watch on A",
+            "A": {k: case["hist"][0][k] for k in keys if k in case["hist"][0]}, "B": {k: case["hist"][1][k] for k in keys if k in case["hist"][1]},
+            "B_differs_from_A_by": case.get("mutations")}
+
+
+def _pair_buckets(case, ans):
+    out = PL.buckets(case) + ["pair:same-ops:%d" % (case["hist"][0]["ops"] == case["hist"][1]["ops"]),
+                              "pair:auto:%d-%d" % tuple(c["auto_commit"] for c in case["cfgs"])]
+    parts = {label: text for _, label, text in (PL.split_labelled(ans) or [])}
+    for i, label in enumerate(("hA", "hB")):
+        if label in parts:
+            out += ["pair:" + b for b in _single["buckets"](case["hist"][i], parts[label]) if b.startswith("op:")]
+    return out
+
+
+_single = {"cases": cases, "impl": impl, "oracle": oracle, "neighbours": neighbours, "known_id": known_id, "nontrivial": nontrivial,
+           "describe": describe, "buckets": buckets}
+
+
+def cases(rng, tier):  # noqa: F811
+    yield from _single["cases"](rng, tier)
+    if PL.enabled():
+        yield from pair_cases(rng, tier)
+
+
+def impl(case):  # noqa: F811
+    return impl_pair(case) if case.get("pair") else _single["impl"](case)
+
+
+def oracle(case, ans):  # noqa: F811
+    return PL.history_oracle(case, ans, _single["oracle"]) if case.get("pair") else _single["oracle"](case, ans)
+
+
+def compare(case, impl_ans, model_ans):
+    return PL.compare(impl_ans, model_ans, PL.history_compare) if case.get("pair") else impl_ans == model_ans
+
+
+def neighbours(case, rng):  # noqa: F811
+    return pair_neighbours(case, rng) if case.get("pair") else _single["neighbours"](case, rng)
+
+
+def known_id(case, failure):  # noqa: F811
+    return PL.history_known_id(case, failure, _single["known_id"]) if case.get("pair") else _single["known_id"](case, failure)
+
+
+def nontrivial(case):  # noqa: F811
+    if case.get("pair"):
+        return all(_single["nontrivial"](h) for h in case["hist"])
+    return _single["nontrivial"](case)
+
+
+def describe(case):  # noqa: F811
+    return _pair_describe(case) if case.get("pair") else _single["describe"](case)
+
+
+def buckets(case, ans):  # noqa: F811
+    return _pair_buckets(case, ans) if case.get("pair") else _single["buckets"](case, ans)
+
+
+RULE += (" PAIR STREAM (two LIVE instances; props/pairlib.py, channel `pair`): 450 (quick) cases hold two configs from ONE template (seed, "
+         "banner / macro bearing and plain random configs; B = A with children re-texted / re-indented / commented / swapped / inserted / "
+         "deleted / moved, 15 % identical), parsed with the same or different syntax / ignore_blank_lines / auto_commit / parse options. BOTH "
+         "are parsed first; a history over the extended alphabet (stale-probe histories included) runs on A with a look at B before every "
+         "operation and after the last -- texts, line numbers, links, the seven family views, two recursive searches --, then a history on B "
+         "(40 % the same calls) with the same watch on A. The histories are run by edit7.run_history itself, judged by the oracle above on "
+         "their own case (tree after every commit = fresh parse; searches refuse exactly while an insert is pending ON THAT instance) and "
+         "compared with the model's answer for that history alone; the watched instance must not change and answers while the other one is stale.")
+LEVEL_NOTE += (" Two live instances: the edit machine is a function of one history (channel `pair` only carries ordinary requests), so "
+               "'commit / staleness of A neither depends on nor touches B' holds for the model by construction and is MEASURED for the code by "
+               "the pair stream.")
